@@ -498,6 +498,12 @@ where
 {
     install_panic_hook();
     let known = load_known(spec.id);
+    let mut spec = spec;
+    if let Ok(extra) = std::env::var("BVERIF_EXTRA") {
+        if let Ok(v) = serde_json::from_str::<Value>(&extra) {
+            spec.extra = v;
+        }
+    }
 
     if let Some(path) = &opts.replay {
         return replay(&spec, opts, path, &known);
